@@ -4,14 +4,6 @@ import KyupyVerif.Proofs.SubstSome2
 namespace KV.Transform
 open KV
 
-theorem mem_vals_of_getD (map : Array (Option Nat)) (k x : Nat) (h : map.getD k none = some x) : x ∈ map.toList.filterMap id := by
-  have hk : k < map.size := by
-    apply Classical.byContradiction; intro hn
-    simp only [Array.getD_eq_getD_getElem?, Array.getElem?_eq_none (by omega : map.size ≤ k)] at h
-    exact absurd h (by simp)
-  simp only [Array.getD_eq_getD_getElem?, Array.getElem?_eq_getElem hk, Option.getD_some] at h
-  exact List.mem_filterMap.mpr ⟨some x, by rw [← h]; exact Array.getElem_mem_toList hk, rfl⟩
-
 /-! ### gap-freeness (`Dn`) through the phases -/
 theorem dn_pushNode (net : Net) (kind : String) (h : ∀ j, j < net.nodes.size → Dn net j) :
     ∀ j, j < (pushNode net kind).nodes.size → Dn (pushNode net kind) j := by
@@ -86,6 +78,55 @@ theorem dn_connectOuts (m : NNet) (map : Array (Option Nat)) : ∀ (pins : List 
       intro hf o ho
       rw [setDriver_node, if_neg (fun hc => hne hc.1)] at hf ho
       exact h hf o ho
+
+/-! ### pin-list lengths (`LS`) through the phases -/
+theorem ls_pushNodes : ∀ (ks : List String) (net : Net) (j : Nat), j < net.nodes.size → LS net (ks.foldl pushNode net) j
+  | [], net, j, _ => LS.refl net j
+  | k :: ks, net, j, hj => by
+    rw [List.foldl_cons]
+    refine LS.trans (LS.of_eq ?_) (ls_pushNodes ks _ j ?_)
+    · rw [pushNode_node, if_neg (by omega)]
+    · show j < (net.nodes.push _).size
+      rw [Array.size_push]; omega
+
+theorem ls_addLineNet (net : Net) (d dp r rp j : Nat) (hd : j ≠ d) (hr : j ≠ r) : LS net (addLineNet net d dp r rp) j := by
+  apply LS.of_eq
+  rw [addLineNet_node]; dsimp only
+  rw [if_neg (fun hc : j = r ∧ r < net.nodes.size => hr hc.1), if_neg (fun hc : j = d ∧ d < net.nodes.size => hd hc.1)]
+
+theorem ls_addImplLines (map : Array (Option Nat)) : ∀ (lns : List LineD) (net : Net) (j : Nat),
+    j ∉ map.toList.filterMap id → LS net (lns.foldl (addImplLineN map) net) j
+  | [], net, j, _ => LS.refl net j
+  | ln :: lns, net, j, hj => by
+    rw [List.foldl_cons]
+    refine LS.trans ?_ (ls_addImplLines map lns _ j hj)
+    unfold addImplLineN
+    cases hd : map.getD ln.driver none with
+    | none => exact LS.refl _ _
+    | some d =>
+      cases hr : map.getD ln.reader none with
+      | none => exact LS.refl _ _
+      | some r =>
+        exact ls_addLineNet net d ln.dpin r ln.rpin j (fun e => hj (e ▸ mem_vals_of_getD map _ d hd))
+          (fun e => hj (e ▸ mem_vals_of_getD map _ r hr))
+
+theorem ls_connectOuts (m : NNet) (map : Array (Option Nat)) : ∀ (pins : List (Nat × Option Nat)) (net : Net) (dang : List (Option Nat))
+    (st' : Net × List (Option Nat)), connectOuts m map pins (net, dang) = some st' →
+    ∀ j, j ∉ map.toList.filterMap id → LS net st'.1 j
+  | [], net, dang, st', he => by
+    simp only [connectOuts] at he; cases he; exact fun j _ => LS.refl net j
+  | (l, none) :: rest, net, dang, st', he => by
+    rw [connectOuts] at he
+    exact ls_connectOuts m map rest net _ st' he
+  | (l, some ll) :: rest, net, dang, st', he => by
+    rw [connectOuts] at he
+    split at he
+    · exact absurd he (by simp)
+    · rename_i d dp ht
+      intro j hj
+      refine LS.trans (LS.of_eq ?_) (ls_connectOuts m map rest _ _ st' he j hj)
+      have hne : j ≠ d := fun e => hj (e ▸ outTarget_val m map l d dp ht)
+      rw [setDriver_node, if_neg (fun hc : j = d ∧ d < net.nodes.size => hne hc.1)]
 
 theorem densifyNode_size (net : Net) (v : Nat) : (densifyNode net v).nodes.size = net.nodes.size := by
   unfold densifyNode; split <;> simp
@@ -202,7 +243,8 @@ theorem core_some_of (h : NNet) (c : Nat) (m : NNet) (sh : Shape) (hs : implShap
       ((phase1 h c m sh.des).1.net.line l0).driver < (phase1 h c m sh.des).1.net.nodes.size ∧
       ¬ Own ((phase1 h c m sh.des).1.net.line l0).driver) :
     ∃ h5 map dang, substituteCore h c m = some (h5, map, dang) ∧
-      ∀ j, j < h5.net.nodes.size → j ∉ map.toList.filterMap id → Dn h5.net j := by
+      (∀ j, j < h5.net.nodes.size → j ∉ map.toList.filterMap id → Dn h5.net j) ∧
+      (∀ j, j < (phase1 h c m sh.des).1.net.nodes.size → ¬ Own j → LS (phase1 h c m sh.des).1.net h5.net j) := by
   -- the loop over the implementation's nodes
   have hf : addFreshB h c m = true := hfresh
   unfold addFreshB at hf
@@ -267,18 +309,27 @@ theorem core_some_of (h : NNet) (c : Nat) (m : NNet) (sh : Shape) (hs : implShap
     obtain ⟨g1, g2, g3⟩ := hpins l0 ⟨k, inn, hk2, hk1, hig⟩
     rw [a1, a3]
     exact ⟨g1, Nat.lt_of_lt_of_le g2 hsz2, g3⟩
-  obtain ⟨net4, ren, Ex', hci, _, hn4, hd4, hr4⟩ := connectIns_some Own m map _ (phase3 m map h2) id _
+  obtain ⟨net4, ren, Ex', hci, _, hn4, hd4, hr4, hls4⟩ := connectIns_some Own m map _ (phase3 m map h2) id _
     (fun inn l0 hm hig => inTarget_some m sh map hs ht hmapped inn (List.of_mem_zip hm).1 hig) ci
   -- the loop over the output pins
   obtain ⟨⟨net5, dang⟩, hco⟩ := connectOuts_some m map (sh.outLines.zip ((padTo (h.net.node c).outs sh.outLines.length).map ren)) (net4, [])
     (fun p hp => outTarget_some m sh map hs ht hmapped p.1 (List.of_mem_zip hp).1)
   obtain ⟨hn5, hd5⟩ := dn_connectOuts m map _ _ _ _ hco
   refine ⟨{ h2 with net := net5 }, map, dang,
-    substituteCore_of_phases h c m sh hs h2 map net4 net5 ren dang hil hol hfold hci hco, ?_⟩
-  intro j hj hv
-  have hj2 : j < h2.net.nodes.size := by
-    have : net5.nodes.size = h2.net.nodes.size := by rw [hn5]; show net4.nodes.size = _; rw [hn4, hn3]
-    rw [← this]; exact hj
-  exact hd5 j hv (hd4 j (by rw [hn3]; exact hj2) (dn3 j hj2 hv))
+    substituteCore_of_phases h c m sh hs h2 map net4 net5 ren dang hil hol hfold hci hco, ?_, ?_⟩
+  · intro j hj hv
+    have hj2 : j < h2.net.nodes.size := by
+      have : net5.nodes.size = h2.net.nodes.size := by rw [hn5]; show net4.nodes.size = _; rw [hn4, hn3]
+      rw [← this]; exact hj
+    exact hd5 j hv (hd4 j (by rw [hn3]; exact hj2) (dn3 j hj2 hv))
+  · intro j hj hno
+    have hv : j ∉ map.toList.filterMap id := by
+      intro hm
+      obtain ⟨k, hk⟩ := mem_map_values map j hm
+      exact hno (hmapOwn k j hk)
+    have l1 : LS (phase1 h c m sh.des).1.net h2.net j := by rw [hkinds']; exact ls_pushNodes kinds _ j hj
+    have l2 : LS h2.net (phase3 m map h2) j := by rw [e3]; exact ls_addImplLines map _ _ j hv
+    have l4 : LS net4 net5 j := ls_connectOuts m map _ net4 [] (net5, dang) hco j hv
+    exact (l1.trans l2).trans ((hls4 j hv).trans l4)
 
 end KV.Transform
